@@ -253,6 +253,9 @@ def prune_cache(keep=150, min_age_s=6 * 3600):
 _lean_built = None
 
 
+EXTRACTION_FALLBACK = []   # plugins whose patterns no longer match the tree on this run (last extracted values are used)
+
+
 def lean_build(force=False, targets=None, timeout=3000):
     """Regenerate constants from /repo and build Lean targets.  Returns (ok, log).
     targets=None builds the whole library and every driver (setup); a check passes its own property
@@ -272,6 +275,7 @@ def lean_build(force=False, targets=None, timeout=3000):
             if getattr(consts.generate, "plugin_errors", None):
                 # the plugin's Generated file now fails to compile: only targets importing it break
                 ext_log = "extraction plugins failed: %s\n" % consts.generate.plugin_errors
+                EXTRACTION_FALLBACK[:] = list(consts.generate.plugin_errors)
         except Exception as ex:  # extraction pattern no longer matches: broken tie
             ext_ok, ext_log = False, "constants extraction failed: %r" % (ex,)
         # default: the whole library and every driver whose root exists; VERIF_LEAN_TARGETS
